@@ -395,6 +395,10 @@ class _StickySink:
         """Register a session via the callback; stash the minted token for the response."""
         token = self._open_callback(state, ttl)
         self.mint_token = token
+        # The response must describe the *final* state of the request: a
+        # session opened after an earlier close_session() is live, so the
+        # response must not also tell the client to drop its token.
+        self.closed = False
         # _open_callback set _current_session_context — capture the new id
         # from there. We could equally have _open_callback return it, but
         # the contextvar is the single source of truth right after open.
@@ -407,6 +411,9 @@ class _StickySink:
         """Close the bound session via the callback; signal the response middleware."""
         self._close_callback()
         self.closed = True
+        # ...and a session closed after being opened in the same request must
+        # not leave its token in the response.
+        self.mint_token = None
 
 
 # ---------------------------------------------------------------------------
